@@ -91,7 +91,15 @@ namespace occa {
         if ((kType & keywordType::type) &&
             !vartype.isValid()) {
           vartype.type = &(keyword.to<typeKeyword>().type_);
-          vartype.typeToken = (identifierToken*) tokenContext[0]->clone();
+          // Inside expressions the identifier has already been replaced by a [typeToken],
+          // which is not an [identifierToken]
+          token_t *token = tokenContext[0];
+          if (token->type() & tokenType::identifier) {
+            vartype.typeToken = (identifierToken*) token->clone();
+          } else {
+            vartype.typeToken = new identifierToken(token->origin,
+                                                    vartype.type->name());
+          }
           ++tokenContext;
           continue;
         }
